@@ -6,11 +6,15 @@ import Sqfs.Spec.FsTree
 
   run <sorted 0|1> <d.uid> <d.gid> <d.mtime> <d.mode> <nsteps> step*
       step   = A <path> <mode> <uid> <gid> <mtime> <rdev> <extra>                 (`fstree_add_generic` from a pack-file line)
+             | L <path> <mode> <uid> <gid> <mtime> <rdev> <extra>                 (the same with SQFS_DIR_ENTRY_FLAG_HARD_LINK;
+                                                                                   extra = link target)
              | G <target path> <flags> <defUid> <defGid> <defMode> <defMtime> <filePrefix> <pattern> <rootDev> forest
                                                                                   (`glob_files` / `--pack-dir`)
       forest = <n> node*        node = <name> <mode> <uid> <gid> <mtime> <dev> <ino> <rdev> <target> forest
       extra / filePrefix / pattern = "-" (absent) | "p:<hex>"
     → "ok <dump>" | "err"      (dump format: see harness/h_c11.c)
+  direct <full|count> <d.uid> <d.gid> <d.mtime> <d.mode> <n> (A|L step)*
+      → as `run` without glob steps; `count` prints only "ok n=<number of inodes>"   (real: fstree_add_generic called directly)
   isort <name>*          → the names after `insert_sorted` of each, in the order given   (real: fstree_add_generic)
   readnames <sorted 0|1> <name>*
                          → the names in the order `read_names` (dir_unix.c) leaves them in `it->names`, i.e. the order
@@ -85,6 +89,13 @@ partial def parseSteps : Nat → List String → Option (List Step)
     let ex ← optTok extra
     let rest ← parseSteps k more
     some (.add e (match ex with | none => .none | some s => .str s) :: rest)
+  | k + 1, "L" :: path :: mode :: uid :: gid :: mtime :: rdev :: extra :: more => do
+    let p := splitPath (← fromHex path)
+    let e : Ent := { rel := p, path := p, mode := ← nat? mode, uid := ← nat? uid, gid := ← nat? gid,
+                     mtime := ← int? mtime, dev := 0, ino := 0, rdev := ← nat? rdev, mount := false, hard := true }
+    let ex ← optTok extra
+    let rest ← parseSteps k more
+    some (.add e (match ex with | none => .none | some s => .link (splitPath s) none) :: rest)
   | k + 1, "G" :: target :: flags :: du :: dg :: dm :: dt :: fp :: pat :: rootDev :: more => do
     let tp := splitPath (← fromHex target)
     let cfg : Cfg := { flags := ← nat? flags, defUid := ← nat? du, defGid := ← nat? dg, defMode := ← nat? dm,
@@ -150,6 +161,20 @@ def step (line : String) : String :=
           | none => "err"
           | some r => dump r
     | _, _, _, _, _, _ => "bad-op"
+  | "direct" :: what :: du :: dg :: dt :: dm :: n :: rest =>
+    match nat? du, nat? dg, nat? dt, nat? dm, nat? n with
+    | some du, some dg, some dt, some dm, some n =>
+      let d : Defaults := { uid := du, gid := dg, mtime := dt, mode := dm }
+      match parseSteps n rest with
+      | none => "bad-op"
+      | some steps =>
+        match runSteps true d steps (initRoot d) [] with
+        | none => "err"
+        | some (t, links) =>
+          match postProcess t links with
+          | none => "err"
+          | some r => if what = "count" then s!"ok n={r.inodes.length}" else dump r
+    | _, _, _, _, _ => "bad-op"
   | "isort" :: names =>
     match names.mapM fromHex with
     | none => "bad-op"
